@@ -16,6 +16,7 @@ def check(tier, seed):
     with C.WorkDir('C04') as wd:
         C.audit_sources()
         C.props_obligations(res, 'C04', wd)
+        C.tie_b_request(res, wd)
         cases = RC.run_suite(res, 'C04', tier, seed, 400, 15000, n_req=[1, 1, 2], oracle=lambda sc, rq, r: S.safety_oracle(rq, r), pair_every=25)
         res.compare(cases)
         res.notes['returned_frames'] = sum(1 for c in cases if 'ret=Ubx' in c.impl)
